@@ -1,8 +1,8 @@
 CONSTANTS
   MaxLen = 3
   Goals = {1, 2}
-  KeepAssertedBinding = FALSE
-  ProtectCarriers = TRUE
+  KeepAssertedBinding = TRUE
+  ProtectCarriers = FALSE
   NoXfail = FALSE
 SPECIFICATION Spec
 INVARIANT KeepAsserts
